@@ -136,7 +136,7 @@ func TestC05Histories(t *testing.T) {
 				}
 			}
 			return model.Op{K: "regnode", N: id, NT: nt, Pol: rapid.SampledFrom([]int{0, 0, 0, 0, 1, 2, 3}).Draw(t, "pol"), Dress: rapid.SampledFrom([]int{0, 0, 0, 1, 2, 3}).Draw(t, "dress"),
-				Shape: rapid.SampledFrom([]int{0, 0, 0, 1, 2, 3}).Draw(t, "shape"), Reuse: rapid.IntRange(0, 7).Draw(t, "reuse") == 0,
+				Shape: rapid.SampledFrom([]int{0, 0, 0, 1, 2, 3, 4}).Draw(t, "shape"), Reuse: rapid.IntRange(0, 7).Draw(t, "reuse") == 0,
 				CloseErr: rapid.IntRange(0, 5).Draw(t, "closeErr") == 0}
 		case 1:
 			if rapid.Bool().Draw(t, "likelyValid") {
